@@ -755,14 +755,899 @@ Proof.
 Qed.
 
 
-(** The same check for the repaired variant: designated iff a majority
-    (including the leader) is live. The map order is irrelevant there. *)
+(** Number of live members; the repaired code ignores the proposed map order. *)
 Definition live_count (n : nat) (live : nat -> bool) : nat := length (List.filter live (seq 0 n)).
-
-Definition repaired_check (n : nat) (mask : list bool) : bool :=
-  Bool.eqb
-    (c_designated (p_chain (fst (prun as_repaired n 5760 (pinit 0) (fair_rounds 8 (members mask) 1 [])))))
-    (maj_m n <=? live_count n (live_of mask))%nat.
 
 Lemma assemble_repaired_order n o1 o2 m : assemble as_repaired n o1 m = assemble as_repaired n o2 m.
 Proof. reflexivity. Qed.
+
+(** * Liveness in the working tree ([as_repaired]) for SYMBOLIC committee
+    size: on the canonical fair schedule (every live member ticks, everything
+    pooled is executed, a block passes) five rounds designate the role
+    whenever the leader and at least M-1 other members are live.  Symbolic
+    execution of the model, round by round; the members' ticks are handled by
+    induction over the member list. *)
+Definition pexec (v : variant) (n : nat) (maxinc : Z) (s : pstate) (ls : list label) : pstate :=
+  fst (prun v n maxinc s ls).
+
+Lemma pexec_nil v n maxinc s : pexec v n maxinc s [] = s.
+Proof. reflexivity. Qed.
+
+Lemma pexec_cons v n maxinc s lb ls :
+  pexec v n maxinc s (lb :: ls) = pexec v n maxinc (fst (pstep v n maxinc s lb)) ls.
+Proof.
+  unfold pexec. cbn [prun]. destruct (pstep v n maxinc s lb) as [s1 ev1]. cbn [fst].
+  destruct (prun v n maxinc s1 ls) as [s2 evs2]. reflexivity.
+Qed.
+
+Lemma pexec_app v n maxinc ls1 : forall s ls2,
+  pexec v n maxinc s (ls1 ++ ls2) = pexec v n maxinc (pexec v n maxinc s ls1) ls2.
+Proof.
+  induction ls1 as [|lb ls1 IH]; intros s ls2; [reflexivity|].
+  rewrite <- app_comm_cons, !pexec_cons. apply IH.
+Qed.
+
+(** * What ticks read of the chain *)
+Definition view (c : chain) : Z * option (list data) * gmap nat (list sigrec) * bool :=
+  (c_height c, c_txdom c, c_sigdom c, c_designated c).
+
+Lemma view_pool_add c w : view (fst (pool_add c w)) = view c.
+Proof. reflexivity. Qed.
+
+Definition add_opt (c : chain) (w : option write) : chain :=
+  match w with Some w => fst (pool_add c w) | None => c end.
+
+Lemma view_add_opt c w : view (add_opt c w) = view c.
+Proof. destruct w; reflexivity. Qed.
+
+Lemma pool_add_opt c w :
+  c_pool (add_opt c w) = c_pool c ++ match w with Some w => [(c_next c, w)] | None => [] end.
+Proof. destruct w; cbn; [reflexivity|rewrite app_nil_r; reflexivity]. Qed.
+
+Lemma apply_write_view c1 c2 w :
+  view c1 = view c2 -> view (apply_write c1 w) = view (apply_write c2 w).
+Proof.
+  destruct c1 as [h1 t1 g1 d1 p1 n1], c2 as [h2 t2 g2 d2 p2 n2]. unfold view. cbn.
+  intros [= -> -> -> ->]. unfold apply_write, write_ok. cbn.
+  repeat case_match; reflexivity.
+Qed.
+
+Lemma fold_apply_write_view ws : forall c1 c2,
+  view c1 = view c2 -> view (fold_left apply_write ws c1) = view (fold_left apply_write ws c2).
+Proof.
+  induction ws as [|w ws IH]; intros c1 c2 Hv; [exact Hv|]. cbn [fold_left]. apply IH.
+  apply apply_write_view. exact Hv.
+Qed.
+
+Lemma apply_write_next c w : c_next (apply_write c w) = c_next c.
+Proof. unfold apply_write. repeat case_match; reflexivity. Qed.
+
+(** * Executing everything pooled *)
+
+Definition clear_all (p : list (nat * write)) (f : pending) : pending :=
+  fold_left (fun f e => clear (fst e) f) p f.
+
+Lemma clear_all_None p : clear_all p None = None.
+Proof. induction p as [|e p IH]; [reflexivity|exact IH]. Qed.
+
+Definition land_fold (p : list (nat * write)) (s : pstate) : pstate :=
+  fold_left (fun s (e : nat * write) => land (fst e) s) p s.
+
+Lemma land_head id w p s :
+  c_pool (p_chain s) = (id, w) :: p ->
+  land id s =
+  clear_flags id
+    (mkP (let c' := apply_write (p_chain s) w in
+          mkChain (c_height c') (c_txdom c') (c_sigdom c') (c_designated c') p (c_next c'))
+         (p_leader s) (p_signers s) (p_solo s)).
+Proof.
+  intros Hp. unfold land. rewrite Hp. cbn [list_find fst].
+  rewrite bool_decide_eq_true_2 by reflexivity.
+  case_decide as Hd; [|exfalso; apply Hd; exact I].
+  rewrite apply_write_pool, Hp. reflexivity.
+Qed.
+
+Lemma get_signer_clear id s k :
+  get_signer (clear_flags id s) k =
+  let sg := get_signer s k in mkSigner (s_tx sg) (clear id (s_reg sg)) (clear id (s_set sg)).
+Proof.
+  unfold get_signer, clear_flags. cbn [p_signers]. rewrite lookup_fmap.
+  destruct (p_signers s !! k) as [sg|]; reflexivity.
+Qed.
+
+(** Landing the whole pool, in order: the chain is the fold of the writes,
+    the pool is empty, flags are cleared, nothing else changes. *)
+Lemma land_fold_spec p : forall s,
+  c_pool (p_chain s) = p ->
+  let s' := land_fold p s in
+  let c' := fold_left apply_write (map snd p) (p_chain s) in
+  view (p_chain s') = view c' /\ c_pool (p_chain s') = [] /\ c_next (p_chain s') = c_next (p_chain s) /\
+  l_tx (p_leader s') = l_tx (p_leader s) /\ l_script (p_leader s') = l_script (p_leader s) /\
+  l_m (p_leader s') = l_m (p_leader s) /\ l_full (p_leader s') = l_full (p_leader s) /\
+  l_tried (p_leader s') = l_tried (p_leader s) /\
+  l_reg (p_leader s') = clear_all p (l_reg (p_leader s)) /\
+  l_set (p_leader s') = clear_all p (l_set (p_leader s)) /\
+  (forall k, s_tx (get_signer s' k) = s_tx (get_signer s k) /\
+             s_reg (get_signer s' k) = clear_all p (s_reg (get_signer s k)) /\
+             s_set (get_signer s' k) = clear_all p (s_set (get_signer s k))).
+Proof.
+  induction p as [|[id w] p IH]; intros s Hp.
+  - cbn. repeat split; try reflexivity. exact Hp.
+  - cbn [land_fold fold_left map snd fst]. rewrite (land_head id w p s Hp).
+    set (s1 := clear_flags id _).
+    assert (Hp1 : c_pool (p_chain s1) = p) by reflexivity.
+    specialize (IH s1 Hp1). cbv zeta in IH.
+    destruct IH as (I1 & I2 & I3 & I4 & I5 & I6 & I7 & I8 & I9 & I10 & I11).
+    assert (Hv : view (fold_left apply_write (map snd p) (p_chain s1)) =
+                 view (fold_left apply_write (map snd p) (apply_write (p_chain s) w))).
+    { apply fold_apply_write_view. reflexivity. }
+    cbv zeta. unfold land_fold in *. rewrite I1, Hv.
+    split; [reflexivity|]. split; [exact I2|]. split; [rewrite I3; subst s1; cbn; apply apply_write_next|].
+    split; [exact I4|]. split; [exact I5|]. split; [exact I6|]. split; [exact I7|]. split; [exact I8|].
+    split; [exact I9|]. split; [exact I10|].
+    intros k. destruct (I11 k) as (J1 & J2 & J3). subst s1. rewrite get_signer_clear in J1, J2, J3.
+    cbn [s_tx s_reg s_set] in J1, J2, J3. auto.
+Qed.
+
+(** * Members' ticks, by induction over the member list *)
+
+Lemma view_fields c1 c2 : view c1 = view c2 ->
+  c_height c1 = c_height c2 /\ c_txdom c1 = c_txdom c2 /\ c_sigdom c1 = c_sigdom c2 /\
+  c_designated c1 = c_designated c2.
+Proof. unfold view. intros [= -> -> -> ->]. auto. Qed.
+
+Lemma pstep_signer v n maxinc s k nonce order :
+  c_designated (p_chain s) = false -> (k < n)%nat -> n <> 1%nat -> k <> 0%nat ->
+  fst (pstep v n maxinc s (LTick k nonce order)) =
+  mkP (fst (fst (signer_tick k (p_chain s) (get_signer s k)))) (p_leader s)
+      (<[k := snd (fst (signer_tick k (p_chain s) (get_signer s k)))]> (p_signers s)) (p_solo s).
+Proof.
+  intros Hd Hk Hn H0. cbn [pstep]. rewrite Hd.
+  replace (k <? n)%nat with true by lia. cbn [negb orb].
+  replace (n =? 1)%nat with false by lia. replace (k =? 0)%nat with false by lia.
+  destruct (signer_tick k (p_chain s) (get_signer s k)) as [[c1 sg1] ev1]. reflexivity.
+Qed.
+
+Lemma get_signer_insert_eq c l sg so k x : get_signer (mkP c l (<[k := x]> sg) so) k = x.
+Proof. unfold get_signer. cbn [p_signers]. rewrite lookup_insert. reflexivity. Qed.
+
+Lemma get_signer_insert_ne c l sg so k k' x s :
+  k <> k' -> p_signers s = sg -> get_signer (mkP c l (<[k := x]> sg) so) k' = get_signer s k'.
+Proof. intros Hne <-. unfold get_signer. cbn [p_signers]. rewrite lookup_insert_ne by exact Hne. reflexivity. Qed.
+
+Lemma signers_fold v n maxinc nonce order (act : nat -> option write)
+    (Q : signer -> Prop) (R : signer -> signer -> Prop) T : forall s,
+  c_designated (p_chain s) = false -> n <> 1%nat -> List.NoDup T ->
+  Forall (fun k => (1 <= k < n)%nat) T ->
+  (forall c' sg k, view c' = view (p_chain s) -> In k T -> Q sg ->
+      exists sg', fst (signer_tick k c' sg) = (add_opt c' (act k), sg') /\ R sg sg') ->
+  (forall k, In k T -> Q (get_signer s k)) ->
+  let s' := pexec v n maxinc s (map (fun k => LTick k nonce order) T) in
+  view (p_chain s') = view (p_chain s) /\
+  (exists L, c_pool (p_chain s') = c_pool (p_chain s) ++ L /\ map snd L = omap act T) /\
+  p_leader s' = p_leader s /\
+  (forall k, In k T -> R (get_signer s k) (get_signer s' k)) /\
+  (forall k, ~ In k T -> get_signer s' k = get_signer s k).
+Proof.
+  induction T as [|k T IH]; intros s Hd Hn Hnd Hall Hact HQ.
+  - cbn. repeat split; try reflexivity; [|intros k []]. exists []. rewrite app_nil_r. split; reflexivity.
+  - apply List.NoDup_cons_iff in Hnd as [Hk Hnd]. apply Forall_cons_1 in Hall as [Hkn Hall].
+    cbn [map]. cbv zeta. rewrite pexec_cons, (pstep_signer v n maxinc s k nonce order Hd) by lia.
+    destruct (Hact (p_chain s) (get_signer s k) k eq_refl ltac:(left; reflexivity) (HQ k ltac:(left; reflexivity)))
+      as (sg1 & E1 & HR1).
+    rewrite E1. cbn [fst snd].
+    set (s1 := mkP (add_opt (p_chain s) (act k)) (p_leader s) (<[k := sg1]> (p_signers s)) (p_solo s)).
+    assert (Hv1 : view (p_chain s1) = view (p_chain s)) by apply view_add_opt.
+    assert (Hg1 : forall k', k' <> k -> get_signer s1 k' = get_signer s k').
+    { intros k' Hne. apply get_signer_insert_ne; [congruence|reflexivity]. }
+    specialize (IH s1).
+    destruct IH as (I1 & I2 & I3 & I4 & I5).
+    + apply view_fields in Hv1 as (_ & _ & _ & ->). exact Hd.
+    + exact Hn.
+    + exact Hnd.
+    + exact Hall.
+    + intros c' sg k' Hv Hin HQ'. apply (Hact c' sg k'); [rewrite Hv; exact Hv1|right; exact Hin|exact HQ'].
+    + intros k' Hin. rewrite Hg1; [apply HQ; right; exact Hin|]. intros ->. contradiction.
+    + split; [rewrite I1; exact Hv1|]. split; [|split; [rewrite I3; reflexivity|split]].
+      * destruct I2 as (L & I2 & I2'). rewrite I2. subst s1. cbn [p_chain]. rewrite pool_add_opt, <- app_assoc.
+        eexists. split; [reflexivity|]. rewrite map_app, I2'. cbn [omap list_omap].
+        destruct (act k); reflexivity.
+      * intros k' [<-|Hin].
+        -- rewrite I5 by exact Hk. subst s1. rewrite get_signer_insert_eq. exact HR1.
+        -- rewrite <- Hg1; [apply I4; exact Hin|]. intros ->. contradiction.
+      * intros k' Hnin. rewrite I5; [apply Hg1|]; intros H; apply Hnin; [left; congruence|right; exact H].
+Qed.
+
+(** The signer's tick in each phase of the exchange, as a function of what it
+    reads. [mine k d]: the record member k writes for shared data d. *)
+Definition mine (k : nat) (d : data) : sigrec := mkRec d (mkSig k d).
+
+Lemma signer_tick_idle k c sg :
+  c_txdom c = None \/ c_txdom c = Some [] ->
+  fst (signer_tick k c sg) = (add_opt c None, sg).
+Proof. intros [H|H]; unfold signer_tick, lookup_tx; rewrite H; reflexivity. Qed.
+
+Lemma signer_tick_register k c sg d rest :
+  c_txdom c = Some (d :: rest) -> (d_vub d <? c_height c) = false ->
+  c_sigdom c !! k = None -> s_reg sg = None ->
+  exists sg', fst (signer_tick k c sg) = (add_opt c (Some (WRegSig k)), sg') /\ s_set sg' = s_set sg.
+Proof.
+  intros Ht He Hs Hr. unfold signer_tick, lookup_tx, lookup_sig. rewrite Ht, He, Hs. cbn [s_reg s_set s_tx].
+  rewrite Hr. rewrite bool_decide_eq_false_2 by (intros [x Hx]; discriminate).
+  destruct (pool_add c (WRegSig k)) as [c1 id] eqn:Ep. eexists. split; [cbn [fst add_opt]; rewrite Ep; reflexivity|reflexivity].
+Qed.
+
+Lemma signer_tick_sign k c sg d rest :
+  c_txdom c = Some (d :: rest) -> (d_vub d <? c_height c) = false ->
+  c_sigdom c !! k = Some [] -> s_set sg = None ->
+  exists sg', fst (signer_tick k c sg) = (add_opt c (Some (WAddSig k (mine k d))), sg') /\ True.
+Proof.
+  intros Ht He Hs Hr. unfold signer_tick, lookup_tx, lookup_sig. rewrite Ht, He, Hs. cbn [s_reg s_set s_tx].
+  rewrite Hr. rewrite bool_decide_eq_false_2 by (intros [x Hx]; discriminate).
+  unfold write_ok. rewrite Hs. rewrite bool_decide_eq_false_2 by (intros Hin; inversion Hin). cbn [negb andb length].
+  change (0 <? max_records)%nat with true. cbn [negb].
+  fold (mine k d).
+  destruct (pool_add c (WAddSig k (mine k d))) as [c1 id] eqn:Ep. eexists. split; [cbn [fst add_opt]; rewrite Ep; reflexivity|exact I].
+Qed.
+
+Lemma signer_tick_signed k c sg d rest recs :
+  c_txdom c = Some (d :: rest) -> (d_vub d <? c_height c) = false ->
+  c_sigdom c !! k = Some (mine k d :: recs) ->
+  exists sg', fst (signer_tick k c sg) = (add_opt c None, sg') /\ True.
+Proof.
+  intros Ht He Hs. unfold signer_tick, lookup_tx, lookup_sig. rewrite Ht, He, Hs. cbn [s_reg s_set s_tx].
+  unfold mine. cbn [sr_ck sr_sig sv_by sv_over].
+  rewrite !bool_decide_eq_true_2 by reflexivity. cbn [andb]. eexists. split; [reflexivity|exact I].
+Qed.
+
+(** * The leader's collection loop and the finalisation *)
+
+Lemma pstep_leader v n maxinc s nonce order :
+  c_designated (p_chain s) = false -> (2 <= n)%nat ->
+  fst (pstep v n maxinc s (LTick 0 nonce order)) =
+  mkP (fst (fst (leader_tick v n maxinc nonce order (p_chain s) (p_leader s))))
+      (snd (fst (leader_tick v n maxinc nonce order (p_chain s) (p_leader s))))
+      (p_signers s) (p_solo s).
+Proof.
+  intros Hd Hn. cbn [pstep]. rewrite Hd.
+  replace (0 <? n)%nat with true by lia. cbn [negb orb].
+  replace (n =? 1)%nat with false by lia. cbn [Nat.eqb].
+  destruct (leader_tick v n maxinc nonce order (p_chain s) (p_leader s)) as [[c1 l1] ev1]. reflexivity.
+Qed.
+
+Lemma collect_none n c d need is : forall m inv,
+  (forall i, In i is -> c_sigdom c !! i = None \/ c_sigdom c !! i = Some []) ->
+  collect_loop n c d need m inv is = CContinue m inv.
+Proof.
+  induction is as [|i is IH]; intros m inv H; [reflexivity|].
+  cbn [collect_loop]. unfold collect_step, lookup_sig.
+  destruct (H i ltac:(left; reflexivity)) as [E|E]; rewrite E; apply IH; intros j Hj; apply H; right; exact Hj.
+Qed.
+
+Lemma m_insert_notin i x m : ~ In i (map fst m) -> m_insert i x m = m ++ [(i, x)].
+Proof.
+  induction m as [|[j w] m IH]; intros H; [reflexivity|].
+  cbn [m_insert]. destruct (i =? j)%nat eqn:E.
+  - apply Nat.eqb_eq in E. subst. exfalso. apply H. left. reflexivity.
+  - cbn [app]. rewrite IH; [reflexivity|]. intros H'. apply H. right. exact H'.
+Qed.
+
+Definition ent (d : data) (k : nat) : nat * sigval := (k, mkSig k d).
+
+(** Domains of live members hold their record for [d], the others are not
+    registered: the loop collects the first [need] live members of [is]. *)
+Lemma collect_live n c d need (live : nat -> bool) is : forall m inv,
+  (forall i, In i is -> c_sigdom c !! i = if live i then Some [mine i d] else None) ->
+  List.NoDup is -> (forall i, In i is -> ~ In i (map fst m)) -> (length m < need)%nat ->
+  collect_loop n c d need m inv is =
+  let avail := List.filter live is in
+  if (length m + length avail <? need)%nat then CContinue (m ++ map (ent d) avail) inv
+  else CBreak (m ++ map (ent d) (take (need - length m) avail)).
+Proof.
+  induction is as [|i is IH]; intros m inv Hs Hnd Hm Hlt.
+  - cbn [collect_loop List.filter length map]. cbv zeta. cbn [length map].
+    replace (length m + 0 <? need)%nat with true by lia. rewrite app_nil_r. reflexivity.
+  - apply List.NoDup_cons_iff in Hnd as [Hi Hnd].
+    cbn [collect_loop List.filter]. unfold collect_step, lookup_sig.
+    rewrite (Hs i ltac:(left; reflexivity)). destruct (live i) eqn:El.
+    + unfold mine. cbn [sr_ck sr_sig sv_by sv_over].
+      rewrite !bool_decide_eq_true_2 by reflexivity. cbn [negb andb].
+      rewrite (m_insert_notin i (mkSig i d) m (Hm i ltac:(left; reflexivity))).
+      rewrite app_length. cbn [length].
+      destruct (length m + 1 =? need)%nat eqn:E.
+      * apply Nat.eqb_eq in E. cbv zeta. cbn [length].
+        replace (length m + S (length (List.filter live is)) <? need)%nat with false by lia.
+        replace (need - length m)%nat with 1%nat by lia. cbn [take map]. reflexivity.
+      * apply Nat.eqb_neq in E. rewrite IH.
+        -- cbv zeta. rewrite app_length. cbn [length].
+           replace (length m + 1 + length (List.filter live is) <? need)%nat
+             with (length m + S (length (List.filter live is)) <? need)%nat by (f_equal; lia).
+           destruct (length m + S (length (List.filter live is)) <? need)%nat.
+           ++ rewrite <- app_assoc. reflexivity.
+           ++ replace (need - length m)%nat with (S (need - (length m + 1)))%nat by lia.
+              cbn [take map]. rewrite <- app_assoc. reflexivity.
+        -- intros j Hj. apply Hs. right. exact Hj.
+        -- exact Hnd.
+        -- intros j Hj. rewrite map_app. cbn [map fst]. intros Hin. apply in_app_or in Hin as [Hin|[<-|[]]].
+           ++ apply (Hm j); [right; exact Hj|exact Hin].
+           ++ contradiction.
+        -- rewrite app_length. cbn [length]. lia.
+    + apply IH; [intros j Hj; apply Hs; right; exact Hj|exact Hnd|intros j Hj; apply Hm; right; exact Hj|exact Hlt].
+Qed.
+
+Lemma m_extract_notin k m : ~ In k (map fst m) -> m_extract k m = None.
+Proof.
+  induction m as [|[j w] m IH]; intros H; [reflexivity|].
+  cbn [m_extract]. destruct (k =? j)%nat eqn:E.
+  - apply Nat.eqb_eq in E. subst. exfalso. apply H. left. reflexivity.
+  - rewrite IH; [reflexivity|]. intros H'. apply H. right. exact H'.
+Qed.
+
+Lemma range_map_nil order : range_map order [] = [].
+Proof. induction order as [|k order IH]; [reflexivity|exact IH]. Qed.
+
+(** Visiting the keys in ascending order leaves a map with ascending keys as it is. *)
+Lemma range_map_sorted (f : nat -> sigval) cnt : forall lo ks,
+  StronglySorted lt ks -> Forall (fun k => (lo <= k < lo + cnt)%nat) ks ->
+  range_map (seq lo cnt) (map (fun k => (k, f k)) ks) = map f ks.
+Proof.
+  induction cnt as [|cnt IH]; intros lo ks Hs Hb.
+  - destruct ks as [|k ks]; [reflexivity|]. apply Forall_cons_1 in Hb as [Hb _]. lia.
+  - cbn [seq range_map]. destruct ks as [|k ks]; [apply range_map_nil|].
+    apply StronglySorted_inv in Hs as [Hs Hlt]. apply Forall_cons_1 in Hb as [Hk Hb].
+    destruct (Nat.eq_dec k lo) as [->|Hne].
+    + cbn [map m_extract]. rewrite Nat.eqb_refl. cbn [map]. f_equal. apply IH; [exact Hs|].
+      rewrite List.Forall_forall in *. intros j Hj. specialize (Hb j Hj). specialize (Hlt j Hj). lia.
+    + rewrite m_extract_notin.
+      * apply (IH (S lo) (k :: ks)); [constructor; assumption|].
+        constructor; [lia|]. rewrite List.Forall_forall in *. intros j Hj. specialize (Hb j Hj). specialize (Hlt j Hj). lia.
+      * rewrite map_map. cbn [fst]. rewrite map_id. intros [H|H]; [lia|].
+        rewrite List.Forall_forall in Hlt. specialize (Hlt lo H). lia.
+Qed.
+
+Lemma strictly_increasing_sorted l : StronglySorted lt l -> strictly_increasing l = true.
+Proof.
+  induction l as [|a l IH]; intros Hs; [reflexivity|].
+  apply StronglySorted_inv in Hs as [Hs Hlt]. destruct l as [|b l]; [reflexivity|].
+  change (strictly_increasing (a :: b :: l)) with ((a <? b)%nat && strictly_increasing (b :: l)).
+  apply Forall_cons_1 in Hlt as [Hab _].
+  rewrite IH by exact Hs. replace (a <? b)%nat with true by lia. reflexivity.
+Qed.
+
+(** The node accepts the leader's signature followed by those of [need]
+    members listed in ascending order. *)
+Lemma verdict_sorted n d ks :
+  (1 <= n)%nat -> StronglySorted lt ks -> Forall (fun k => (1 <= k < n)%nat) ks ->
+  S (length ks) = maj_m n ->
+  node_verdict n d (mkSig 0 d :: map (fun k => mkSig k d) ks) = VAccepted.
+Proof.
+  intros Hn Hs Hb Hlen. unfold node_verdict. cbn [length]. rewrite map_length, Hlen, Nat.eqb_refl. cbn [negb].
+  unfold valid_witness. cbn [forallb map sv_over sv_by].
+  rewrite bool_decide_eq_true_2 by reflexivity. replace (0 <? n)%nat with true by lia. cbn [andb].
+  rewrite map_map. cbn [sv_by]. rewrite map_id.
+  assert (Hf : forallb (fun s => bool_decide (sv_over s = d) && (sv_by s <? n)%nat) (map (fun k => mkSig k d) ks) = true).
+  { apply forallb_forall. intros s Hin. apply in_map_iff in Hin as (k & <- & Hk). cbn [sv_over sv_by].
+    rewrite bool_decide_eq_true_2 by reflexivity. rewrite List.Forall_forall in Hb. specialize (Hb k Hk).
+    replace (k <? n)%nat with true by lia. reflexivity. }
+  rewrite Hf. cbn [andb].
+  rewrite (strictly_increasing_sorted (0%nat :: ks)); [reflexivity|].
+  constructor; [exact Hs|]. revert Hb. apply List.Forall_impl. intros k Hk. lia.
+Qed.
+
+(** * One fair round: leader tick, members' ticks, everything lands, a block *)
+
+Lemma pexec_landall v n maxinc s ls :
+  pexec v n maxinc s (LLandAll :: ls) = pexec v n maxinc (land_fold (c_pool (p_chain s)) s) ls.
+Proof. rewrite pexec_cons. reflexivity. Qed.
+
+Lemma round_exec v n maxinc nonce order T (act : nat -> option write)
+    (Q : signer -> Prop) (R : signer -> signer -> Prop) s c1 l1 ev1 :
+  c_designated (p_chain s) = false -> (2 <= n)%nat -> List.NoDup T ->
+  Forall (fun k => (1 <= k < n)%nat) T ->
+  leader_tick v n maxinc nonce order (p_chain s) (p_leader s) = (c1, l1, ev1) ->
+  view c1 = view (p_chain s) ->
+  (forall c' sg k, view c' = view (p_chain s) -> In k T -> Q sg ->
+      exists sg', fst (signer_tick k c' sg) = (add_opt c' (act k), sg') /\ R sg sg') ->
+  (forall k, In k T -> Q (get_signer s k)) ->
+  let s' := pexec v n maxinc s (round (0%nat :: T) nonce order) in
+  exists L, map snd L = omap act T /\
+    let p := c_pool c1 ++ L in
+    let cw := fold_left apply_write (map snd p) c1 in
+    c_height (p_chain s') = c_height cw + 1 /\ c_txdom (p_chain s') = c_txdom cw /\
+    c_sigdom (p_chain s') = c_sigdom cw /\ c_designated (p_chain s') = c_designated cw /\
+    c_pool (p_chain s') = [] /\
+    l_tx (p_leader s') = l_tx l1 /\ l_script (p_leader s') = l_script l1 /\ l_m (p_leader s') = l_m l1 /\
+    l_full (p_leader s') = l_full l1 /\ l_tried (p_leader s') = l_tried l1 /\
+    l_reg (p_leader s') = clear_all p (l_reg l1) /\ l_set (p_leader s') = clear_all p (l_set l1) /\
+    (forall k, In k T -> exists sg', R (get_signer s k) sg' /\
+        s_reg (get_signer s' k) = clear_all p (s_reg sg') /\ s_set (get_signer s' k) = clear_all p (s_set sg')).
+Proof.
+  intros Hd Hn Hnd Hall Hl Hv1 Hact HQ s'.
+  subst s'. unfold round. cbn [map app]. rewrite pexec_cons, (pstep_leader v n maxinc s nonce order Hd Hn), Hl.
+  cbn [fst snd]. set (s1 := mkP c1 l1 (p_signers s) (p_solo s)).
+  rewrite pexec_app.
+  assert (Hd1 : c_designated (p_chain s1) = false).
+  { apply view_fields in Hv1 as (_ & _ & _ & E). cbn [p_chain s1]. rewrite E. exact Hd. }
+  destruct (signers_fold v n maxinc nonce order act Q R T s1 Hd1 ltac:(lia) Hnd Hall) as (F1 & (L & F2 & F2') & F3 & F4 & F5).
+  { intros c' sg k Hv. apply Hact. rewrite Hv. exact Hv1. }
+  { intros k Hin. exact (HQ k Hin). }
+  set (s2 := pexec v n maxinc s1 (map (fun k => LTick k nonce order) T)) in *.
+  rewrite pexec_landall.
+  pose proof (land_fold_spec (c_pool (p_chain s2)) s2 eq_refl) as G. cbv zeta in G.
+  destruct G as (G1 & G2 & G3 & G4 & G5 & G6 & G7 & G8 & G9 & G10 & G11).
+  set (s3 := land_fold (c_pool (p_chain s2)) s2) in *.
+  rewrite pexec_cons, pexec_nil. cbn [pstep fst p_chain p_leader c_height c_txdom c_sigdom c_designated c_pool].
+  exists L. split; [exact F2'|]. cbv zeta.
+  assert (Hp : c_pool (p_chain s2) = c_pool c1 ++ L) by exact F2.
+  rewrite Hp in *.
+  assert (Hvw : view (fold_left apply_write (map snd (c_pool c1 ++ L)) (p_chain s2)) =
+                view (fold_left apply_write (map snd (c_pool c1 ++ L)) c1)).
+  { apply fold_apply_write_view. exact F1. }
+  rewrite Hvw in G1. apply view_fields in G1 as (H1 & H2 & H3 & H4).
+  rewrite H1, H2, H3, H4, G2, G4, G5, G6, G7, G8, G9, G10, F3.
+  repeat split; try reflexivity.
+  intros k Hin. exists (get_signer s2 k). split; [exact (F4 k Hin)|].
+  destruct (G11 k) as (_ & J2 & J3). unfold get_signer in *. cbn [p_signers] in *. auto.
+Qed.
+
+(** Effects of the members' writes, all together. *)
+Lemma fold_regsig T : forall c,
+  List.NoDup T -> (forall k, In k T -> c_sigdom c !! k = None) ->
+  let c' := fold_left apply_write (map WRegSig T) c in
+  c_height c' = c_height c /\ c_txdom c' = c_txdom c /\ c_designated c' = c_designated c /\
+  (forall k, In k T -> c_sigdom c' !! k = Some []) /\
+  (forall k, ~ In k T -> c_sigdom c' !! k = c_sigdom c !! k).
+Proof.
+  induction T as [|k T IH]; intros c Hnd Hs; [cbn; repeat split; auto; intros k []|].
+  apply List.NoDup_cons_iff in Hnd as [Hk Hnd]. cbn [map fold_left].
+  assert (E : apply_write c (WRegSig k) =
+              mkChain (c_height c) (c_txdom c) (<[k := []]> (c_sigdom c)) (c_designated c) (c_pool c) (c_next c)).
+  { unfold apply_write. cbn [write_ok negb]. rewrite (Hs k ltac:(left; reflexivity)). reflexivity. }
+  rewrite E. set (c1 := mkChain _ _ _ _ _ _).
+  destruct (IH c1 Hnd) as (I1 & I2 & I3 & I4 & I5).
+  { intros j Hj. cbn [c1 c_sigdom]. rewrite lookup_insert_ne; [apply Hs; right; exact Hj|]. intros ->. contradiction. }
+  cbv zeta. split; [exact I1|]. split; [exact I2|]. split; [exact I3|]. split.
+  - intros j [<-|Hj]; [|apply I4; exact Hj]. rewrite I5 by exact Hk. cbn [c1 c_sigdom]. apply lookup_insert.
+  - intros j Hj. rewrite I5 by (intros H; apply Hj; right; exact H). cbn [c1 c_sigdom].
+    apply lookup_insert_ne. intros ->. apply Hj. left. reflexivity.
+Qed.
+
+Lemma fold_addsig d T : forall c,
+  List.NoDup T -> (forall k, In k T -> c_sigdom c !! k = Some []) ->
+  let c' := fold_left apply_write (map (fun k => WAddSig k (mine k d)) T) c in
+  c_height c' = c_height c /\ c_txdom c' = c_txdom c /\ c_designated c' = c_designated c /\
+  (forall k, In k T -> c_sigdom c' !! k = Some [mine k d]) /\
+  (forall k, ~ In k T -> c_sigdom c' !! k = c_sigdom c !! k).
+Proof.
+  induction T as [|k T IH]; intros c Hnd Hs; [cbn; repeat split; auto; intros k []|].
+  apply List.NoDup_cons_iff in Hnd as [Hk Hnd]. cbn [map fold_left].
+  assert (E : apply_write c (WAddSig k (mine k d)) =
+              mkChain (c_height c) (c_txdom c) (<[k := [mine k d]]> (c_sigdom c)) (c_designated c) (c_pool c) (c_next c)).
+  { unfold apply_write, write_ok. rewrite (Hs k ltac:(left; reflexivity)).
+    rewrite bool_decide_eq_false_2 by (intros Hin; inversion Hin). reflexivity. }
+  rewrite E. set (c1 := mkChain _ _ _ _ _ _).
+  destruct (IH c1 Hnd) as (I1 & I2 & I3 & I4 & I5).
+  { intros j Hj. cbn [c1 c_sigdom]. rewrite lookup_insert_ne; [apply Hs; right; exact Hj|]. intros ->. contradiction. }
+  cbv zeta. split; [exact I1|]. split; [exact I2|]. split; [exact I3|]. split.
+  - intros j [<-|Hj]; [|apply I4; exact Hj]. rewrite I5 by exact Hk. cbn [c1 c_sigdom]. apply lookup_insert.
+  - intros j Hj. rewrite I5 by (intros H; apply Hj; right; exact H). cbn [c1 c_sigdom].
+    apply lookup_insert_ne. intros ->. apply Hj. left. reflexivity.
+Qed.
+
+(** * The five rounds *)
+
+Lemma omap_none {A B} (T : list A) : omap (fun _ : A => @None B) T = [].
+Proof. induction T as [|a T IH]; [reflexivity|exact IH]. Qed.
+
+Lemma map_snd_nil {A B} (L : list (A * B)) : map snd L = [] -> L = [].
+Proof. destruct L; [reflexivity|discriminate]. Qed.
+
+Lemma StronglySorted_filter {A} (Rel : A -> A -> Prop) f l :
+  StronglySorted Rel l -> StronglySorted Rel (List.filter f l).
+Proof.
+  induction 1 as [|a l Hs IH Hall]; [constructor|]. cbn [List.filter]. destruct (f a); [|exact IH].
+  constructor; [exact IH|]. rewrite List.Forall_forall in *. intros x Hx. apply filter_In in Hx as [Hx _]. auto.
+Qed.
+
+Lemma In_take {A} (x : A) k l : In x (take k l) -> In x l.
+Proof.
+  revert k. induction l as [|a l IH]; intros [|k]; cbn [take]; try (intros []; fail).
+  intros [Hx|Hx]; [left; exact Hx|right; apply (IH k); exact Hx].
+Qed.
+
+Lemma StronglySorted_take {A} (Rel : A -> A -> Prop) k l :
+  StronglySorted Rel l -> StronglySorted Rel (take k l).
+Proof.
+  revert k. induction l as [|a l IH]; intros [|k] Hs; cbn [take]; try constructor.
+  - apply IH. apply StronglySorted_inv in Hs. tauto.
+  - apply StronglySorted_inv in Hs as [_ Hall]. rewrite List.Forall_forall in *. intros x Hx.
+    apply Hall. apply (In_take x k). exact Hx.
+Qed.
+
+Lemma StronglySorted_seq a b : StronglySorted lt (seq a b).
+Proof.
+  revert a. induction b as [|b IH]; intros a; [constructor|]. cbn [seq]. constructor; [apply IH|].
+  apply List.Forall_forall. intros x Hx. apply in_seq in Hx. lia.
+Qed.
+
+Section Live.
+  Variables (n : nat) (maxinc h0 nonce : Z) (order : list nat) (live : nat -> bool).
+  Hypothesis Hn : (2 <= n)%nat.
+  Hypothesis Hinc : 4 <= maxinc.
+
+  (** The live members other than the leader, ascending. *)
+  Definition Sl : list nat := List.filter live (seq 1 (n - 1)).
+  Definition need : nat := (maj_m n - 1)%nat.
+  Hypothesis Hmaj : (need <= length Sl)%nat.
+
+  Lemma Sl_nodup : List.NoDup Sl.
+  Proof. apply List.NoDup_filter, seq_NoDup. Qed.
+  Lemma Sl_bound : Forall (fun k => (1 <= k < n)%nat) Sl.
+  Proof. apply List.Forall_forall. intros k Hk. apply filter_In in Hk as [Hk _]. apply in_seq in Hk. lia. Qed.
+  Lemma Sl_sorted : StronglySorted lt Sl.
+  Proof. apply StronglySorted_filter, StronglySorted_seq. Qed.
+  Lemma Sl_in k : In k Sl <-> (1 <= k < n)%nat /\ live k = true.
+  Proof. unfold Sl. rewrite filter_In, in_seq. split; intros [H1 H2]; split; try assumption; lia. Qed.
+
+  Definition inc : Z := vub_increment maxinc.
+  Lemma inc_ge : 4 <= inc.
+  Proof. unfold inc, vub_increment. destruct (120 <=? maxinc) eqn:E; lia. Qed.
+
+  Notation rnd := (round (0%nat :: Sl) nonce order).
+  Notation run := (pexec as_repaired n maxinc).
+
+  (** State at a round boundary. [sg]: records of the live members' signature
+      domains ([None]: no signature domain is registered). *)
+  Definition bcore (s : pstate) (h : Z) (txd : option (list data))
+      (sg : option (nat -> list sigrec)) (ltx : option data) : Prop :=
+    c_height (p_chain s) = h /\ c_txdom (p_chain s) = txd /\
+    (forall k, c_sigdom (p_chain s) !! k =
+               match sg with
+               | Some f => if live k && (1 <=? k)%nat && (k <? n)%nat then Some (f k) else None
+               | None => None
+               end) /\
+    c_designated (p_chain s) = false /\ c_pool (p_chain s) = [] /\
+    l_tx (p_leader s) = ltx /\ l_script (p_leader s) = [] /\ l_m (p_leader s) = [] /\
+    l_full (p_leader s) = false /\ l_tried (p_leader s) = false /\ l_reg (p_leader s) = None.
+  Definition boundary (s : pstate) (h : Z) (txd : option (list data))
+      (sg : option (nat -> list sigrec)) (ltx : option data) : Prop :=
+    bcore s h txd sg ltx /\ (forall k, In k Sl -> s_set (get_signer s k) = None).
+
+  Lemma leader_eta l : l = mkLeader (l_tx l) (l_script l) (l_m l) (l_full l) (l_tried l) (l_reg l) (l_set l).
+  Proof. destruct l; reflexivity. Qed.
+  Lemma chain_eta c : c = mkChain (c_height c) (c_txdom c) (c_sigdom c) (c_designated c) (c_pool c) (c_next c).
+  Proof. destruct c; reflexivity. Qed.
+
+  Lemma live_Sl k : live k && (1 <=? k)%nat && (k <? n)%nat = true <-> In k Sl.
+  Proof. rewrite Sl_in. split; [intros H|intros [H1 H2]; rewrite H2]; lia. Qed.
+
+  (** Round 1: the leader registers the shared-data domain. *)
+  Lemma round1 :
+    let s := run (pinit h0) rnd in
+    boundary s (h0 + 1) (Some []) None None /\ l_set (p_leader s) = None /\
+    (forall k, In k Sl -> s_reg (get_signer s k) = None).
+  Proof.
+    intros s.
+    destruct (round_exec as_repaired n maxinc nonce order Sl (fun _ => None) (fun _ => True) (fun sg sg' => sg' = sg)
+                (pinit h0) (fst (pool_add (chain0 h0) WRegTx))
+                (mkLeader None [] [] false false (Some 0%nat) None) [ESent 0 WRegTx]
+                eq_refl Hn Sl_nodup Sl_bound eq_refl eq_refl) as (L & HL & H).
+    { intros c' sg k Hv _ _. exists sg. split; [|reflexivity]. apply signer_tick_idle. left.
+      apply view_fields in Hv as (_ & -> & _). reflexivity. }
+    { intros; exact I. }
+    rewrite omap_none in HL. apply map_snd_nil in HL. subst L. cbv zeta in H.
+    fold s in H. cbn in H.
+    destruct H as (A1 & A2 & A3 & A4 & A5 & A6 & A7 & A8 & A9 & A10 & A11 & A12 & A13).
+    split; [|split].
+    - unfold boundary, bcore. rewrite A1, A2, A3, A4, A5, A6, A7, A8, A9, A10, A11.
+      repeat split; try reflexivity.
+      intros k Hk. destruct (A13 k Hk) as (sg' & -> & _ & E). exact E.
+    - exact A12.
+    - intros k Hk. destruct (A13 k Hk) as (sg' & -> & E & _). exact E.
+  Qed.
+
+  Lemma is_Some_None_false {A} : bool_decide (is_Some (@None A)) = false.
+  Proof. apply bool_decide_eq_false_2. intros [x Hx]. discriminate. Qed.
+
+  (** Round 2: the leader publishes the shared data [d]. *)
+  Lemma round2 s h :
+    boundary s h (Some []) None None -> l_set (p_leader s) = None ->
+    (forall k, In k Sl -> s_reg (get_signer s k) = None) ->
+    let s' := run s rnd in
+    boundary s' (h + 1) (Some [(h + inc, nonce)]) None None /\
+    (forall k, In k Sl -> s_reg (get_signer s' k) = None).
+  Proof.
+    intros ((B1 & B2 & B3 & B4 & B5 & B6 & B7 & B8 & B9 & B10 & B11) & B12) Hset Hreg s'.
+    set (d := (h + inc, nonce)).
+    assert (Hl : leader_tick as_repaired n maxinc nonce order (p_chain s) (p_leader s) =
+                 (fst (pool_add (p_chain s) (WAddTx d)),
+                  mkLeader None [] [] false false None (Some (c_next (p_chain s))),
+                  [ESent (c_next (p_chain s)) (WAddTx d)])).
+    { unfold leader_tick, lookup_tx. rewrite B2, Hset, is_Some_None_false.
+      unfold generate_and_share, write_ok. rewrite B2, B1. fold inc. fold d.
+      rewrite bool_decide_eq_false_2 by (intros Hin; inversion Hin). cbn [negb andb length].
+      change (0 <? max_records)%nat with true. cbn [negb].
+      unfold reset_tx. rewrite B10, B11. cbn [pool_add fst snd l_tx l_script l_m l_full l_tried l_reg]. reflexivity. }
+    set (c1 := fst (pool_add (p_chain s) (WAddTx d))) in *.
+    assert (Hp1 : c_pool c1 = [(c_next (p_chain s), WAddTx d)]) by (subst c1; cbn; rewrite B5; reflexivity).
+    assert (Ew : apply_write c1 (WAddTx d) =
+                 mkChain h (Some [d]) (c_sigdom (p_chain s)) false [(c_next (p_chain s), WAddTx d)] (S (c_next (p_chain s)))).
+    { subst c1. unfold apply_write, write_ok. cbn [pool_add fst c_txdom c_height c_sigdom c_designated c_pool c_next].
+      rewrite B2, B1, B4, B5. rewrite bool_decide_eq_false_2 by (intros Hin; inversion Hin). reflexivity. }
+    destruct (round_exec as_repaired n maxinc nonce order Sl (fun _ => None) (fun _ => True) (fun sg sg' => sg' = sg)
+                s _ _ _ B4 Hn Sl_nodup Sl_bound Hl eq_refl) as (L & HL & H).
+    { intros c' sg k Hv _ _. exists sg. split; [|reflexivity]. apply signer_tick_idle. right.
+      apply view_fields in Hv as (_ & -> & _). exact B2. }
+    { intros; exact I. }
+    rewrite omap_none in HL. apply map_snd_nil in HL. subst L. cbv zeta in H. fold s' in H.
+    rewrite app_nil_r, Hp1 in H. cbn [map snd fold_left] in H. rewrite Ew in H.
+    cbn [c_height c_txdom c_sigdom c_designated l_tx l_script l_m l_full l_tried l_reg l_set clear_all fold_left fst clear] in H.
+    rewrite Nat.eqb_refl in H.
+    destruct H as (A1 & A2 & A3 & A4 & A5 & A6 & A7 & A8 & A9 & A10 & A11 & A12 & A13).
+    split.
+    - unfold boundary, bcore. rewrite A1, A2, A3, A4, A5, A6, A7, A8, A9, A10, A11.
+      repeat split; try reflexivity; [exact B3|].
+      intros k Hk. destruct (A13 k Hk) as (sg' & -> & _ & E). rewrite E, (B12 k Hk). reflexivity.
+    - intros k Hk. destruct (A13 k Hk) as (sg' & -> & E & _). rewrite E, (Hreg k Hk). reflexivity.
+  Qed.
+
+  Lemma maj_m_ge2 : (2 <= maj_m n)%nat.
+  Proof.
+    unfold maj_m. pose proof (Nat.div_mod (n - 1) 2 ltac:(lia)) as H.
+    pose proof (Nat.mod_upper_bound (n - 1) 2 ltac:(lia)). lia.
+  Qed.
+  Lemma need_pos : (1 <= need)%nat.
+  Proof. unfold need. pose proof maj_m_ge2. lia. Qed.
+
+  Lemma omap_some {A B} (f : A -> B) (T : list A) : omap (fun k => Some (f k)) T = map f T.
+  Proof. induction T as [|a T IH]; [reflexivity|]. cbn. rewrite IH. reflexivity. Qed.
+
+  (** While signatures are missing the leader's tick changes nothing but its
+      own transaction. *)
+  Lemma leader_wait c l d rest :
+    c_txdom c = Some (d :: rest) -> (d_vub d <? c_height c) = false ->
+    l_m l = [] -> l_script l = [] ->
+    (forall i, In i (seq 1 (n - 1)) -> c_sigdom c !! i = None \/ c_sigdom c !! i = Some []) ->
+    leader_tick as_repaired n maxinc nonce order c l =
+    (c, mkLeader (Some d) [] [] (l_full l) (l_tried l) (l_reg l) (l_set l), []).
+  Proof.
+    intros Ht He Hm Hsc Hs. unfold leader_tick, lookup_tx. rewrite Ht, He.
+    pose proof need_pos as Hneed. unfold need in Hneed.
+    destruct (bool_decide (l_tx l = Some d)) eqn:Eb.
+    - apply bool_decide_eq_true in Eb. rewrite Hm. cbn [length].
+      replace (0 <? maj_m n - 1)%nat with true by lia. cbn [v_first as_repaired].
+      rewrite collect_none by exact Hs. unfold leader_finish, set_m. cbn [l_m length].
+      replace (0 <? maj_m n - 1)%nat with true by lia.
+      rewrite (leader_eta l) at 1. rewrite Eb, Hm, Hsc. reflexivity.
+    - cbn [l_m]. rewrite Hm. cbn [length].
+      replace (0 <? maj_m n - 1)%nat with true by lia. cbn [v_first as_repaired].
+      rewrite collect_none by exact Hs. unfold leader_finish, set_m. cbn [l_m length l_tx l_script l_full l_tried l_reg l_set].
+      replace (0 <? maj_m n - 1)%nat with true by lia. reflexivity.
+  Qed.
+
+  (** Round 3: every live member registers its signature domain. *)
+  Lemma round3 s h d :
+    boundary s h (Some [d]) None None -> h <= d_vub d ->
+    (forall k, In k Sl -> s_reg (get_signer s k) = None) ->
+    let s' := run s rnd in
+    boundary s' (h + 1) (Some [d]) (Some (fun _ => [])) (Some d).
+  Proof.
+    intros ((B1 & B2 & B3 & B4 & B5 & B6 & B7 & B8 & B9 & B10 & B11) & B12) Hvub Hreg s'.
+    assert (He : (d_vub d <? c_height (p_chain s)) = false) by (rewrite B1; lia).
+    pose proof (leader_wait (p_chain s) (p_leader s) d [] B2 He B8 B7
+                  (fun i _ => or_introl (B3 i))) as Hl.
+    destruct (round_exec as_repaired n maxinc nonce order Sl (fun k => Some (WRegSig k))
+                (fun sg => s_reg sg = None) (fun sg sg' => s_set sg' = s_set sg)
+                s _ _ _ B4 Hn Sl_nodup Sl_bound Hl eq_refl) as (L & HL & H).
+    { intros c' sg k Hv Hk HQ. apply view_fields in Hv as (Hv1 & Hv2 & Hv3 & _).
+      apply (signer_tick_register k c' sg d []); [rewrite Hv2; exact B2|rewrite Hv1; exact He|rewrite Hv3; apply B3|exact HQ]. }
+    { exact Hreg. }
+    rewrite omap_some in HL. cbv zeta in H. fold s' in H. rewrite B5 in H. cbn [app] in H. rewrite HL in H.
+    destruct (fold_regsig Sl (p_chain s) Sl_nodup (fun k _ => B3 k)) as (W1 & W2 & W3 & W4 & W5). cbv zeta in W1, W2, W3, W4, W5.
+    cbn [l_tx l_script l_m l_full l_tried l_reg l_set] in H.
+    rewrite W1, W2, W3, B9, B10, B11, clear_all_None in H.
+    destruct H as (A1 & A2 & A3 & A4 & A5 & A6 & A7 & A8 & A9 & A10 & A11 & A12 & A13).
+    unfold boundary, bcore. rewrite A1, A2, A3, A4, A5, A6, A7, A8, A9, A10, A11, B1, B2, B4.
+    repeat split; try reflexivity.
+    - intros k. destruct (live k && (1 <=? k)%nat && (k <? n)%nat) eqn:E.
+      + apply live_Sl in E. apply W4. exact E.
+      + rewrite W5; [apply B3|]. intros Hin. apply live_Sl in Hin. congruence.
+    - intros k Hk. destruct (A13 k Hk) as (sg' & Hs' & _ & E). rewrite E, Hs', (B12 k Hk). apply clear_all_None.
+  Qed.
+
+  (** Round 4: every live member signs and publishes. *)
+  Lemma round4 s h d :
+    boundary s h (Some [d]) (Some (fun _ => [])) (Some d) -> h <= d_vub d ->
+    let s' := run s rnd in
+    bcore s' (h + 1) (Some [d]) (Some (fun k => [mine k d])) (Some d).
+  Proof.
+    intros ((B1 & B2 & B3 & B4 & B5 & B6 & B7 & B8 & B9 & B10 & B11) & B12) Hvub s'.
+    assert (He : (d_vub d <? c_height (p_chain s)) = false) by (rewrite B1; lia).
+    assert (Hsd : forall k, In k Sl -> c_sigdom (p_chain s) !! k = Some []).
+    { intros k Hk. rewrite B3. apply live_Sl in Hk. rewrite Hk. reflexivity. }
+    pose proof (leader_wait (p_chain s) (p_leader s) d [] B2 He B8 B7) as Hl.
+    specialize (Hl ltac:(intros i _; rewrite B3; destruct (live i && (1 <=? i)%nat && (i <? n)%nat); auto)).
+    destruct (round_exec as_repaired n maxinc nonce order Sl (fun k => Some (WAddSig k (mine k d)))
+                (fun sg => s_set sg = None) (fun _ _ => True)
+                s _ _ _ B4 Hn Sl_nodup Sl_bound Hl eq_refl) as (L & HL & H).
+    { intros c' sg k Hv Hk HQ. apply view_fields in Hv as (Hv1 & Hv2 & Hv3 & _).
+      apply (signer_tick_sign k c' sg d []); [rewrite Hv2; exact B2|rewrite Hv1; exact He|rewrite Hv3; apply Hsd; exact Hk|exact HQ]. }
+    { exact B12. }
+    rewrite omap_some in HL. cbv zeta in H. fold s' in H. rewrite B5 in H. cbn [app] in H. rewrite HL in H.
+    destruct (fold_addsig d Sl (p_chain s) Sl_nodup Hsd) as (W1 & W2 & W3 & W4 & W5). cbv zeta in W1, W2, W3, W4, W5.
+    cbn [l_tx l_script l_m l_full l_tried l_reg l_set] in H.
+    rewrite W1, W2, W3, B9, B10, B11, clear_all_None in H.
+    destruct H as (A1 & A2 & A3 & A4 & A5 & A6 & A7 & A8 & A9 & A10 & A11 & A12 & A13).
+    unfold bcore. rewrite A1, A2, A3, A4, A5, A6, A7, A8, A9, A10, A11, B1, B2, B4.
+    repeat split; try reflexivity.
+    - intros k. destruct (live k && (1 <=? k)%nat && (k <? n)%nat) eqn:E.
+      + apply live_Sl in E. apply W4. exact E.
+      + rewrite W5; [rewrite B3, E; reflexivity|]. intros Hin. apply live_Sl in Hin. congruence.
+  Qed.
+
+  (** Round 5: the leader collects, assembles in index order, the node
+      accepts, the designation is executed. *)
+  Lemma leader_designates c l d :
+    c_txdom c = Some [d] -> (d_vub d <? c_height c) = false -> c_pool c = [] ->
+    (forall k, c_sigdom c !! k =
+               if live k && (1 <=? k)%nat && (k <? n)%nat then Some [mine k d] else None) ->
+    l_tx l = Some d -> l_script l = [] -> l_m l = [] -> l_full l = false -> l_tried l = false -> l_reg l = None ->
+    exists c1 l1 ev1 sc,
+      leader_tick as_repaired n maxinc nonce order c l = (c1, l1, ev1) /\
+      view c1 = view c /\ c_pool c1 = [(c_next c, WDesignate d sc)].
+  Proof.
+    intros Ht He Hp Hs Htx Hsc Hm Hf Htr Hr.
+    pose proof need_pos as Hneed. unfold need in Hneed, Hmaj.
+    set (ks := take (maj_m n - 1) Sl).
+    assert (Hks_len : length ks = (maj_m n - 1)%nat) by (subst ks; rewrite take_length; lia).
+    assert (Hks_sorted : StronglySorted lt ks) by (apply StronglySorted_take, Sl_sorted).
+    assert (Hks_bound : Forall (fun k => (1 <= k < n)%nat) ks).
+    { apply List.Forall_forall. intros k Hk. apply In_take in Hk. pose proof Sl_bound as Hb.
+      rewrite List.Forall_forall in Hb. exact (Hb k Hk). }
+    unfold leader_tick, lookup_tx. rewrite Ht, He, Htx.
+    rewrite bool_decide_eq_true_2 by reflexivity. rewrite Hm. cbn [length].
+    replace (0 <? maj_m n - 1)%nat with true by lia. cbn [v_first as_repaired].
+    rewrite (collect_live n c d (maj_m n - 1) live (seq 1 (n - 1)) [] 0).
+    2:{ intros i Hi. rewrite Hs. apply in_seq in Hi.
+        replace (1 <=? i)%nat with true by lia. replace (i <? n)%nat with true by lia.
+        rewrite !andb_true_r. reflexivity. }
+    2:{ apply seq_NoDup. }
+    2:{ intros i _ []. }
+    2:{ cbn [length]. lia. }
+    cbv zeta. cbn [length app]. fold Sl.
+    replace (0 + length Sl <? maj_m n - 1)%nat with false by lia.
+    rewrite Nat.sub_0_r. fold ks.
+    unfold leader_finish, set_m. cbn [l_m l_reg l_tried l_full l_script l_tx l_set].
+    rewrite map_length, Hks_len, Nat.ltb_irrefl, Hr, is_Some_None_false, Htr, Hf, Hsc. cbn [app].
+    unfold assemble. cbn [v_sorted as_repaired]. unfold ent.
+    rewrite (range_map_sorted (fun k => mkSig k d) (S n) 0 ks Hks_sorted).
+    2:{ revert Hks_bound. apply List.Forall_impl. intros k Hk. lia. }
+    cbn [l_script].
+    rewrite (verdict_sorted n d ks ltac:(lia) Hks_sorted Hks_bound ltac:(lia)).
+    rewrite Hp. cbn [map].
+    rewrite bool_decide_eq_false_2 by (intros Hin; inversion Hin).
+    cbn [pool_add]. eexists _, _, _, _. split; [reflexivity|]. split; [reflexivity|].
+    cbn [c_pool]. rewrite Hp. reflexivity.
+  Qed.
+
+  Lemma round5 s h d :
+    bcore s h (Some [d]) (Some (fun k => [mine k d])) (Some d) -> h <= d_vub d ->
+    c_designated (p_chain (run s rnd)) = true.
+  Proof.
+    intros (B1 & B2 & B3 & B4 & B5 & B6 & B7 & B8 & B9 & B10 & B11) Hvub.
+    assert (He : (d_vub d <? c_height (p_chain s)) = false) by (rewrite B1; lia).
+    destruct (leader_designates (p_chain s) (p_leader s) d B2 He B5 B3 B6 B7 B8 B9 B10 B11)
+      as (c1 & l1 & ev1 & sc & Hl & Hv1 & Hp1).
+    destruct (round_exec as_repaired n maxinc nonce order Sl (fun _ => None) (fun _ => True) (fun _ _ => True)
+                s _ _ _ B4 Hn Sl_nodup Sl_bound Hl Hv1) as (L & HL & H).
+    { intros c' sg k Hv Hk _. apply view_fields in Hv as (Hv1' & Hv2 & Hv3 & _).
+      apply (signer_tick_signed k c' sg d [] []); [rewrite Hv2; exact B2|rewrite Hv1'; exact He|].
+      rewrite Hv3, B3. apply live_Sl in Hk. rewrite Hk. reflexivity. }
+    { intros; exact I. }
+    rewrite omap_none in HL. apply map_snd_nil in HL. subst L. cbv zeta in H.
+    rewrite app_nil_r, Hp1 in H. cbn [map snd fold_left] in H.
+    destruct H as (_ & _ & _ & A4 & _). rewrite A4.
+    unfold apply_write. cbn [write_ok negb]. reflexivity.
+  Qed.
+
+  Lemma five_rounds :
+    c_designated (p_chain (run (pinit h0) (fair_rounds 5 (0%nat :: Sl) nonce order))) = true.
+  Proof.
+    unfold fair_rounds. cbn [repeat concat]. rewrite app_nil_r, !pexec_app.
+    destruct round1 as (R1 & R1s & R1r). cbv zeta in R1, R1s, R1r.
+    set (s1 := run (pinit h0) rnd) in *.
+    destruct (round2 s1 (h0 + 1) R1 R1s R1r) as (R2 & R2r). cbv zeta in R2, R2r.
+    set (s2 := run s1 rnd) in *. set (d := (h0 + 1 + inc, nonce)) in *.
+    pose proof inc_ge as Hi.
+    pose proof (round3 s2 (h0 + 1 + 1) d R2 ltac:(cbn; lia) R2r) as R3. cbv zeta in R3.
+    set (s3 := run s2 rnd) in *.
+    pose proof (round4 s3 (h0 + 1 + 1 + 1) d R3 ltac:(cbn; lia)) as R4. cbv zeta in R4.
+    set (s4 := run s3 rnd) in *.
+    exact (round5 s4 (h0 + 1 + 1 + 1 + 1) d R4 ltac:(cbn; lia)).
+  Qed.
+End Live.
+
+(** * Once designated, always designated *)
+Lemma apply_write_des_mono c w : c_designated c = true -> c_designated (apply_write c w) = true.
+Proof. intros H. unfold apply_write. repeat case_match; cbn; auto. Qed.
+
+Lemma land_des_mono id s : c_designated (p_chain s) = true -> c_designated (p_chain (land id s)) = true.
+Proof.
+  intros H. unfold land. destruct (list_find _ _) as [[pos [id' w]]|]; [|exact H].
+  unfold clear_flags. cbn. apply apply_write_des_mono. exact H.
+Qed.
+
+Lemma pstep_des_mono v n maxinc s lb :
+  c_designated (p_chain s) = true -> c_designated (p_chain (fst (pstep v n maxinc s lb))) = true.
+Proof.
+  intros H. destruct lb as [k nonce order|k|id| | |i recs]; cbn [pstep].
+  - rewrite H. cbn [orb fst]. exact H.
+  - destruct (k =? 0)%nat; exact H.
+  - apply land_des_mono. exact H.
+  - cbn [fst]. generalize (c_pool (p_chain s)). intros p. revert s H.
+    induction p as [|e p IH]; intros s H; [exact H|]. cbn [fold_left]. apply IH. apply land_des_mono. exact H.
+  - exact H.
+  - exact H.
+Qed.
+
+Lemma pexec_des_mono v n maxinc ls : forall s,
+  c_designated (p_chain s) = true -> c_designated (p_chain (pexec v n maxinc s ls)) = true.
+Proof.
+  induction ls as [|lb ls IH]; intros s H; [exact H|]. rewrite pexec_cons. apply IH. apply pstep_des_mono. exact H.
+Qed.
+
+(** * The statement for the working tree, symbolic committee size *)
+
+Lemma fair_rounds_split r live nonce order :
+  (5 <= r)%nat -> fair_rounds r live nonce order = fair_rounds 5 live nonce order ++ fair_rounds (r - 5) live nonce order.
+Proof.
+  intros H. unfold fair_rounds. replace r with (5 + (r - 5))%nat at 1 by lia.
+  rewrite repeat_app, concat_app. reflexivity.
+Qed.
+
+Lemma live_members n (live : nat -> bool) :
+  (1 <= n)%nat -> live 0%nat = true ->
+  List.filter live (seq 0 n) = 0%nat :: Sl n live.
+Proof.
+  intros Hn H0. destruct n as [|n]; [lia|]. cbn [seq List.filter]. rewrite H0. unfold Sl.
+  replace (S n - 1)%nat with n by lia. reflexivity.
+Qed.
+
+Lemma live_count_Sl n live :
+  (1 <= n)%nat -> live 0%nat = true -> live_count n live = S (length (Sl n live)).
+Proof. intros Hn H0. unfold live_count. rewrite live_members by assumption. reflexivity. Qed.
+
+Lemma readable_repaired n live : readable as_repaired n live = length (Sl n live).
+Proof. unfold readable, Sl. cbn [v_first as_repaired]. replace (1 + (n - 1) - 1)%nat with (n - 1)%nat by lia. reflexivity. Qed.
+
+Lemma fair_rounds_honest r live0 ks nonce order :
+  Forall (fun k => live0 k = true) ks -> Forall (honest live0) (fair_rounds r ks nonce order).
+Proof.
+  intros Hk. unfold fair_rounds. induction r as [|r IH]; [constructor|]. cbn [repeat concat].
+  apply Forall_app. split; [|exact IH]. unfold round. apply Forall_app. split.
+  - apply List.Forall_forall. intros lb Hin. apply in_map_iff in Hin as (k & <- & Hin).
+    rewrite List.Forall_forall in Hk. exact (Hk k Hin).
+  - repeat constructor.
+Qed.
+
+(** On the fair schedule of the live members, for every committee size n >= 2,
+    every live set containing the leader, every starting height, nonce and
+    proposed map order: after five (or more) rounds the role is designated
+    if and only if a majority of the members is live. *)
+Theorem any_majority_fair n (live : nat -> bool) maxinc h0 nonce order r :
+  (2 <= n)%nat -> live 0%nat = true -> 4 <= maxinc -> (5 <= r)%nat ->
+  c_designated (p_chain (fst (prun as_repaired n maxinc (pinit h0)
+                                   (fair_rounds r (List.filter live (seq 0 n)) nonce order)))) =
+  (maj_m n <=? live_count n live)%nat.
+Proof.
+  intros Hn H0 Hinc Hr.
+  rewrite (live_count_Sl n live ltac:(lia) H0).
+  destruct (maj_m n <=? S (length (Sl n live)))%nat eqn:E.
+  - rewrite (live_members n live ltac:(lia) H0), (fair_rounds_split r _ nonce order Hr).
+    change (fst (prun ?v ?n ?m ?s ?ls)) with (pexec v n m s ls). rewrite pexec_app.
+    apply pexec_des_mono. apply five_rounds; [exact Hn|exact Hinc|]. unfold need. lia.
+  - pose proof (blocked as_repaired n maxinc h0 live
+                  (fair_rounds r (List.filter live (seq 0 n)) nonce order) Hn) as Hb.
+    rewrite readable_repaired in Hb. cbv zeta in Hb. apply Hb; [lia|].
+    apply fair_rounds_honest. apply List.Forall_forall. intros k Hk. apply filter_In in Hk. tauto.
+Qed.
